@@ -516,18 +516,28 @@ func r162and3(c *an.Ctx) {
 	if fn := mustFunc(c, "R16.2", cmpPkg, "", "cmpDuration"); fn != nil {
 		good := true
 		n := 0
+		isKindTest := func(e an.CondEdge) bool {
+			bo, ok := e.If.Cond.(*ssa.BinOp)
+			if !ok {
+				return false
+			}
+			for _, op := range []ssa.Value{bo.X, bo.Y} {
+				if call, ok := op.(*ssa.Call); ok && call.Call.IsInvoke() && call.Call.Method.Name() == "Kind" {
+					return true
+				}
+			}
+			return false
+		}
 		for _, r := range an.Returns(fn) {
-			if b, isC := an.ConstBool(r.Results[3]); isC && b {
+			// every way the ok result becomes true (in cmpDuration or in a helper whose verdict it passes on) lies behind the kind test
+			for _, lf := range an.PhiLeaves(r.Results[3]) {
+				if b, isC := an.ConstBool(lf.Val); !isC || !b {
+					continue
+				}
 				n++
 				g := false
-				for _, e := range an.GuardingEdges(r) {
-					if bo, ok := e.If.Cond.(*ssa.BinOp); ok {
-						for _, op := range []ssa.Value{bo.X, bo.Y} {
-							if call, ok := op.(*ssa.Call); ok && call.Call.IsInvoke() && call.Call.Method.Name() == "Kind" {
-								g = true
-							}
-						}
-					}
+				for _, e := range append(append([]an.CondEdge{}, lf.Conds...), an.GuardingEdges(r)...) {
+					g = g || isKindTest(e)
 				}
 				if !g {
 					good = false
@@ -537,10 +547,28 @@ func r162and3(c *an.Ctx) {
 		c.Check(good && n > 0, "R16.2", "pkg/cmp.cmpDuration|speaks only for message fields holding a Duration", fn.Pos(), "", "cmpDuration reports ok=true without the kind test")
 		// the name test: both early exits for non-durations
 		nameTest := false
+		isDurationName := func(v ssa.Value) bool {
+			cst, ok := v.(*ssa.Const)
+			return ok && cst.Value != nil && cst.Value.ExactString() == `"google.protobuf.Duration"`
+		}
 		an.Instrs(fn, func(in ssa.Instruction) {
-			if bo, ok := in.(*ssa.BinOp); ok && bo.Op == token.EQL {
-				if cst, ok := bo.Y.(*ssa.Const); ok && cst.Value != nil && cst.Value.ExactString() == `"google.protobuf.Duration"` {
-					nameTest = true
+			if bo, ok := in.(*ssa.BinOp); ok && bo.Op == token.EQL && (isDurationName(bo.Y) || isDurationName(bo.X)) {
+				nameTest = true
+			}
+			// the test sits in a helper that is given the name to look for
+			if call, ok := in.(*ssa.Call); ok {
+				if h := an.TransparentCallee(call); h != nil {
+					for i, a := range call.Call.Args {
+						if i >= len(h.Params) || !isDurationName(stripConvs(a)) {
+							continue
+						}
+						prm := h.Params[i]
+						an.Instrs(h, func(x ssa.Instruction) {
+							if bo, ok := x.(*ssa.BinOp); ok && bo.Op == token.EQL && (stripConvs(bo.X) == ssa.Value(prm) || stripConvs(bo.Y) == ssa.Value(prm)) {
+								nameTest = true
+							}
+						})
+					}
 				}
 			}
 		})
@@ -1255,4 +1283,17 @@ func r161unknown(c *an.Ctx) {
 	}
 	c.Check(ok && n >= 2, rule, name+"|every occurrence of an unknown field number is compared", pos, fmt.Sprintf("%d index updates", n),
 		"the per-field-number index of unknown fields does not append to the entries already recorded for that number: with a repeated unknown field only the last occurrence is compared, so messages that differ in an earlier one are reported equal (proto.Equal says they differ)")
+}
+
+func stripConvs(v ssa.Value) ssa.Value {
+	for {
+		switch x := v.(type) {
+		case *ssa.Convert:
+			v = x.X
+		case *ssa.ChangeType:
+			v = x.X
+		default:
+			return v
+		}
+	}
 }
